@@ -1,6 +1,376 @@
-/- Line-protocol driver for engine `btree` — not built yet (stub). -/
+/-
+  Line-protocol driver for engine `btree` (C10), judge mode: the input is `case ==> observation`.
+
+  case        ::= seq:<pagesize>:<minkeys>:<siblings>:<keytype> op ; op ; …
+  op          ::= ins k len seed | upd k len seed | ups k len seed | rm k | rmt k | get k | gett k | scan
+  observation ::= obs <opobs> ; <opobs> ; …     (one per op)   [ ## diagnostics]
+  opobs       ::= r=<res> g=<probe> t=<probe> s=<hash>:<n> b=<hash>:<n> [a=<hash>] c=<rust checker> R=<root> [F<first>:<last>] page*
+  page        ::= L<id>:<prev>:<next>:<leafcell>,…          leaf      leafcell ::= <key>.<len>.<seed>[@p1+p2…]
+                | I<id>:<prev>:<next>:<right>:<intcell>,…   interior  intcell  ::= <left>.<key>[@p1+p2…]
+                | O<id>:<next>                               overflow link or free page
+                | B<id>                                      unreadable / malformed page
+                | S<id>:<free_space>:<free_space_ptr>:<offset>+<size>,…   slot accounting of B-tree page <id> (slot order)
+  Only pages whose token changed since the previous operation are listed (the driver keeps the page table).
+  A key that could not be decoded is `!`; a payload that is not the pattern of its (len, seed) has seed 99999.
+
+  Verdict `ok` iff, after **every** operation: the result, both probes of the operation's key, the forward and backward
+  scan (hashes over the whole contents), every 16th operation the probe of all keys of the case, are what the spec map
+  says; `checkTree` accepts the dump; `toList dump` = the spec map; and every page of the tree passes the slotted-page
+  accounting check `Slotted.wfB`.
+-/
+import AxVerif.Model.BTree
+import AxVerif.Model.Balance
+import AxVerif.Model.Slotted
+import AxVerif.Generated.BTree
+namespace AxVerif.BTreeDriver
+open AxVerif.BTree
+
+def splitWords (s : String) : List String := (s.splitOn " ").filter (· ≠ "")
+
+def seedMask (len seed : Nat) : Nat :=
+  if len = 0 then 0 else if len = 1 then seed % 256 else seed % 65536
+
+inductive COp where
+  | ins (k len seed : Nat) | upd (k len seed : Nat) | ups (k len seed : Nat)
+  | rm (k : Nat) | rmt (k : Nat) | get (k : Nat) | gett (k : Nat) | scan
+
+def maxKey : Nat := 16777216
+
+def natLt (s : String) (bound : Nat) : Option Nat :=
+  match s.toNat? with
+  | some n => if n < bound then some n else none
+  | none => none
+
+def parseOp (s : String) : Option COp :=
+  match s.splitOn " " with
+  | ["ins", k, l, sd] => match natLt k maxKey, natLt l 1048577, natLt sd 65536 with
+    | some k, some l, some sd => some (.ins k l sd) | _, _, _ => none
+  | ["upd", k, l, sd] => match natLt k maxKey, natLt l 1048577, natLt sd 65536 with
+    | some k, some l, some sd => some (.upd k l sd) | _, _, _ => none
+  | ["ups", k, l, sd] => match natLt k maxKey, natLt l 1048577, natLt sd 65536 with
+    | some k, some l, some sd => some (.ups k l sd) | _, _, _ => none
+  | ["rm", k] => (natLt k maxKey).map .rm
+  | ["rmt", k] => (natLt k maxKey).map .rmt
+  | ["get", k] => (natLt k maxKey).map .get
+  | ["gett", k] => (natLt k maxKey).map .gett
+  | ["scan"] => some .scan
+  | _ => none
+
+def allSome {α : Type} : List (Option α) → Option (List α)
+  | [] => some []
+  | none :: _ => none
+  | some a :: rest => (allSome rest).map (a :: ·)
+
+def parseCase (c : String) : Option (List COp) :=
+  match c.splitOn " " with
+  | head :: _ :: _ =>
+    match head.splitOn ":" with
+    | ["seq", ps, mk, sib, kt] =>
+      let okPs := ps = "4096" || ps = "8192" || ps = "16384"
+      let okMk := match mk.toNat? with | some n => 3 ≤ n && n ≤ 16 | none => false
+      let okSib := match sib.toNat? with | some n => 1 ≤ n && n ≤ 8 | none => false
+      let okKt := ["u64", "i64", "text", "ltext", "comp"].contains kt
+      if okPs && okMk && okSib && okKt then
+        let body := (c.drop (head.length + 1)).toString
+        match allSome ((body.splitOn " ; ").map parseOp) with
+        | some ops => if ops.isEmpty || ops.length > 5000 then none else some ops
+        | none => none
+      else none
+    | _ => none
+  | _ => none
+
+def COp.key? : COp → Option Nat
+  | .ins k _ _ | .upd k _ _ | .ups k _ _ | .rm k | .rmt k | .get k | .gett k => some k
+  | .scan => none
+
+def COp.toOp : COp → Op
+  | .ins k l s => .ins k (l, seedMask l s)
+  | .upd k l s => .upd k (l, seedMask l s)
+  | .ups k l s => .ups k (l, seedMask l s)
+  | .rm k | .rmt k => .rm k
+  | .get k | .gett k => .get k
+  | .scan => .scan
+
+def fnvInit : UInt64 := 0xcbf29ce484222325
+def mix (h : UInt64) (x : Nat) : UInt64 := (h ^^^ x.toUInt64) * 0x100000001b3
+
+def scanHash (l : List (Nat × Val)) : String :=
+  let h := l.foldl (fun h e => mix (mix (mix h e.1) e.2.1) e.2.2) fnvInit
+  s!"{h.toNat}:{l.length}"
+
+def probeStr (m : List (Nat × Val)) (k : Nat) : String :=
+  match alookup k m with
+  | none => "none"
+  | some (l, s) => s!"{l},{s}"
+
+def resStr : Res → String
+  | .ok => "ok" | .dup => "dup" | .nokey => "nokey"
+  | .found none => "none"
+  | .found (some (l, s)) => s!"{l},{s}"
+  | .list l => scanHash l
+
+def insertSorted (k : Nat) : List Nat → List Nat
+  | [] => [k]
+  | x :: xs => if k < x then k :: x :: xs else if k = x then x :: xs else x :: insertSorted k xs
+
+def allProbeHash (m : List (Nat × Val)) (keys : List Nat) : String :=
+  let h := keys.foldl (fun h k =>
+    match alookup k m with
+    | none => mix (mix (mix (mix h k) 0) 0) 0
+    | some (l, s) => mix (mix (mix (mix h k) 1) l) s) fnvInit
+  s!"{h.toNat}"
+
+/-! ### page tokens -/
+
+def parseChain (s : String) : Option (List Nat) :=
+  if s.isEmpty then some [] else allSome ((s.splitOn "+").map (·.toNat?))
+
+def parseLeafCell (s : String) : Option LeafCell :=
+  let (body, chain) := match s.splitOn "@" with
+    | [b] => (b, some [])
+    | [b, c] => (b, parseChain c)
+    | _ => (s, none)
+  match body.splitOn ".", chain with
+  | [k, l, sd], some ch => match k.toNat?, l.toNat?, sd.toNat? with
+    | some k, some l, some sd => some { key := k, val := (l, sd), chain := ch }
+    | _, _, _ => none
+  | _, _ => none
+
+def parseIntCell (s : String) : Option IntCell :=
+  let (body, chain) := match s.splitOn "@" with
+    | [b] => (b, some [])
+    | [b, c] => (b, parseChain c)
+    | _ => (s, none)
+  match body.splitOn ".", chain with
+  | [l, k], some ch => match l.toNat?, k.toNat? with
+    | some l, some k => some { left := l, key := k, chain := ch }
+    | _, _ => none
+  | _, _ => none
+
+def parseCells {α : Type} (f : String → Option α) (s : String) : Option (List α) :=
+  if s.isEmpty then some [] else allSome ((s.splitOn ",").map f)
+
+/-- (page id, page) of a page token; `none` as page = not a (readable) B-tree page; outer `none` = malformed token -/
+def parsePageTok (tok : String) : Option (Nat × Option Page) :=
+  let kind := tok.take 1
+  let rest := (tok.drop 1).toString
+  match kind.toString, rest.splitOn ":" with
+  | "L", [id, pr, nx, cells] =>
+    match id.toNat?, pr.toNat?, nx.toNat? with
+    | some id, some pr, some nx => some (id, (parseCells parseLeafCell cells).map (Page.leaf pr nx))
+    | _, _, _ => none
+  | "I", [id, pr, nx, r, cells] =>
+    match id.toNat?, pr.toNat?, nx.toNat?, r.toNat? with
+    | some id, some pr, some nx, some r => some (id, (parseCells parseIntCell cells).map (Page.interior pr nx r))
+    | _, _, _, _ => none
+  | "O", [id, _] => id.toNat?.map (·, none)
+  | "B", [id] => id.toNat?.map (·, none)
+  | _, _ => none
+
+def setPage (pages : Array (Option Page)) (id : Nat) (p : Option Page) : Array (Option Page) :=
+  let pages := if id < pages.size then pages else pages ++ Array.replicate (id + 1 - pages.size) none
+  pages.setIfInBounds id p
+
+/-- which conjunct of `checkTree` fails (diagnostics) -/
+def whyNot (d : Dump) : String :=
+  match treeOf d with
+  | none => "no-tree(page/cycle)"
+  | some t =>
+    if !t.bounded none none then "order/bound"
+    else if !t.sepsAscending then "separators"
+    else if !t.height.isSome then "depth"
+    else if !distinct t.ids then "shared-page"
+    else if t.ids.contains 0 then "page0"
+    else if !linksOk d 0 (t.leafList.map (·.1)) then "links"
+    else if !levelsLinked d t then "interior-links"
+    else if !t.noEmptyLeaf then "empty-leaf"
+    else "fuel"
+
+structure St where
+  spec : List (Nat × Val) := []
+  pages : Array (Option Page) := #[]
+  slotted : Array (Option Slotted.SPage) := #[]
+  root : Nat := 0
+
+def parseSlotted (cap : Nat) (tok : String) : Option (Nat × Slotted.SPage) :=
+  match ((tok.drop 1).toString).splitOn ":" with
+  | [id, free, fsp, cells] =>
+    let cs : Option (List (Nat × Nat)) :=
+      if cells.isEmpty then some []
+      else allSome ((cells.splitOn ",").map fun c =>
+        match c.splitOn "+" with
+        | [o, sz] => match o.toNat?, sz.toNat? with
+          | some o, some sz => some (o, sz)
+          | _, _ => none
+        | _ => none)
+    match id.toNat?, free.toNat?, fsp.toNat?, cs with
+    | some id, some free, some fsp, some cs => some (id, { cap := cap, slots := cs, fsp := fsp, free := free })
+    | _, _, _, _ => none
+  | _ => none
+
+def setSlotted (a : Array (Option Slotted.SPage)) (id : Nat) (p : Slotted.SPage) : Array (Option Slotted.SPage) :=
+  let a := if id < a.size then a else a ++ Array.replicate (id + 1 - a.size) none
+  a.setIfInBounds id (some p)
+
+def field (ws : List String) (pfx : String) : Option String :=
+  (ws.find? (·.startsWith pfx)).map (fun w => (w.drop pfx.length).toString)
+
+/-- judge one operation's observation; `Except.error why` = inadmissible -/
+def stepObs (cap : Nat) (i : Nat) (keys : List Nat) (st : St) (op : COp) (obs : String) : Except String St := do
+  let ws := splitWords obs
+  let (spec', res) := specStep st.spec op.toOp
+  let need (name : String) : Except String String :=
+    match field ws (name ++ "=") with
+    | some v => pure v
+    | none => throw s!"op{i} missing {name}="
+  let r ← need "r"
+  if r != resStr res then throw s!"op{i} result want={resStr res} got={r}"
+  let g ← need "g"
+  let t ← need "t"
+  match op.key? with
+  | some k =>
+    let want := probeStr spec' k
+    if g != want then throw s!"op{i} search want={want} got={g}"
+    if t != want then throw s!"op{i} search_tuple want={want} got={t}"
+  | none =>
+    if g != "-" || t != "-" then throw s!"op{i} unexpected probe"
+  let s ← need "s"
+  if s != scanHash spec' then throw s!"op{i} scan want={scanHash spec'} got={s}"
+  let b ← need "b"
+  if b != scanHash spec'.reverse then throw s!"op{i} backward-scan want={scanHash spec'.reverse} got={b}"
+  match field ws "a=" with
+  | some a => if a != allProbeHash spec' keys then throw s!"op{i} probe-all differs"
+  | none => pure ()
+  let c ← need "c"
+  let rootS ← need "R"
+  let root ← match rootS.toNat? with
+    | some n => pure n
+    | none => throw s!"op{i} bad root"
+  let mut pages := st.pages
+  for w in ws do
+    let k := (w.take 1).toString
+    if k == "L" || k == "I" || k == "O" || k == "B" then
+      match parsePageTok w with
+      | some (id, p) => pages := setPage pages id p
+      | none => throw s!"op{i} malformed page token"
+  let mut slotted := st.slotted
+  for w in ws do
+    if (w.take 1).toString == "S" then
+      match parseSlotted cap w with
+      | some (id, p) => slotted := setSlotted slotted id p
+      | none => throw s!"op{i} malformed slotted token"
+  let d := ({ root := root, pages := pages } : DumpData).toDump
+  if !checkTree d then throw s!"op{i} checkTree rejects: {whyNot d} (rust checker: {c})"
+  if toList d != spec' then throw s!"op{i} contents differ from the spec map"
+  if c != "ok" then throw s!"op{i} checkers disagree: lean accepts, rust says {c}"
+  match treeOf d with
+  | none => pure ()
+  | some t =>
+    for id in t.ids do
+      match (slotted[id]?).join with
+      | some p => if !Slotted.wfB p then throw s!"op{i} slotted-page accounting broken on page {id}"
+      | none => throw s!"op{i} no slot accounting for page {id}"
+  pure { spec := spec', pages := pages, slotted := slotted, root := root }
+
+def judgeSeq (cap : Nat) (ops : List COp) (obs : String) : String :=
+  let gat := (obs.splitOn " ## ").headD ""
+  if !gat.startsWith "obs " then s!"bad implementation failed: {gat.take 60}"
+  else
+    let parts := ((gat.drop 4).toString).splitOn " ; "
+    let keys := ops.foldl (fun acc o => match o.key? with | some k => insertSorted k acc | none => acc) []
+    -- the engine stops observing after the first operation its own spec map flags; the judge must then have rejected
+    -- that operation, so running out of observations is itself inadmissible
+    let rec go (i : Nat) (st : St) : List COp → List String → String
+      | op :: ops, o :: os =>
+        match stepObs cap i keys st op o with
+        | .ok st' => go (i + 1) st' ops os
+        | .error e => "bad " ++ e
+      | [], [] => "ok"
+      | _, _ => s!"bad op{i} number of observations differs from the number of operations"
+    go 0 {} ops parts
+
+def parseSizes (s : String) : Option (List Nat) :=
+  if s = "-" then some [] else allSome ((s.splitOn ",").map (·.toNat?))
+
+def joinNats (l : List Nat) : String := ",".intercalate (l.map toString)
+
+def judge (line : String) : String :=
+  match line.splitOn " ==> " with
+  | [c, obs] =>
+    let gat := (obs.splitOn " ## ").headD ""
+    let head := (c.splitOn " ").headD ""
+    if head.startsWith "seq:" then
+      match parseCase c with
+      | none => if gat = "bad-op" then "ok" else "bad malformed case accepted"
+      | some ops =>
+        if gat = "bad-op" then "bad well-formed case rejected"
+        else
+          let ps := ((head.splitOn ":").getD 1 "4096").toNat?.getD 4096
+          judgeSeq (ps - Generated.BTree.btreeHeaderSize) ops obs
+    else if head.startsWith "cmp:" then
+      match c.splitOn " " with
+      | [_, a, b] =>
+        match natLt a maxKey, natLt b maxKey with
+        | some a, some b =>
+          let want := if a < b then "lt" else if a = b then "eq" else "gt"
+          if gat = want then "ok" else s!"bad comparator says {gat}, index order says {want}"
+        | _, _ => if gat = "bad-op" then "ok" else "bad malformed case accepted"
+      | _ => if gat = "bad-op" then "ok" else "bad malformed case accepted"
+    else if head = "split" then
+      -- observation: split <l> <r> sizes=<total sizes>
+      match splitWords gat with
+      | ["split", l, r, sz] =>
+        match l.toNat?, r.toNat?, parseSizes ((sz.drop 6).toString) with
+        | some l, some r, some sizes =>
+          let (a, b) := Balance.splitCells sizes
+          if a.length = l ∧ b.length = r then "ok" else s!"bad model splits {a.length}/{b.length}"
+        | _, _, _ => "bad unparsable observation"
+      | _ => if gat = "bad-op" then (if (c.splitOn " ").length = 2 then "bad well-formed case rejected" else "ok") else "bad unparsable observation"
+    else if head = "dist" then
+      -- observation: dist usable=<u> under=<m> sizes=<storage sizes> totals=<…> counts=<…>
+      match splitWords gat with
+      | ["dist", u, m, sz, tot, cnt] =>
+        match ((u.drop 7).toString).toNat?, ((m.drop 6).toString).toNat?, parseSizes ((sz.drop 6).toString),
+              parseSizes ((tot.drop 7).toString), parseSizes ((cnt.drop 7).toString) with
+        | some u, some m, some sizes, some tot, some cnt =>
+          let formulaOk := match c.splitOn " " with
+            | [_, ps, sz] => match ps.toNat?, parseSizes sz with
+              | some ps, some payloads =>
+                let usable := ps - Generated.BTree.btreeHeaderSize
+                decide (u = (usable * 3 + 3) / 4) && decide (m = (usable + 3) / 4) &&
+                  sizes == payloads.map fun n => Generated.BTree.cellHeaderSize + (n + 7) / 8 * 8 + Generated.BTree.slotSize
+              | _, _ => false
+            | _ => false
+          if !formulaOk then "bad cell-size / threshold formulas of the model differ from the code" else
+          match Balance.bestDistribution u m sizes with
+          | some (tot', cnt') =>
+            if tot' = tot ∧ cnt' = cnt then "ok" else s!"bad model totals={joinNats tot'} counts={joinNats cnt'}"
+          | none => "bad model: fix-up loop does not terminate / leaves the cell array"
+        | _, _, _, _, _ => "bad unparsable observation"
+      | _ =>
+        if gat = "bad-op" then "ok"
+        else if gat.startsWith "panic@tree/bplustree.rs:" then
+          -- the helper panicked (usize underflow in the fix-up): admissible iff the model predicts exactly that
+          match c.splitOn " " with
+          | [_, ps, sz] =>
+            match ps.toNat?, parseSizes sz with
+            | some ps, some payloads =>
+              let usable := ps - Generated.BTree.btreeHeaderSize
+              let sizes := payloads.map fun n => Generated.BTree.cellHeaderSize + (n + 7) / 8 * 8 + Generated.BTree.slotSize
+              match Balance.bestDistribution ((usable * 3 + 3) / 4) ((usable + 3) / 4) sizes with
+              | none => "ok"
+              | some _ => "bad implementation panics, model does not"
+            | _, _ => "bad implementation failed"
+          | _ => "bad implementation failed"
+        else "bad implementation failed"
+    else if gat = "bad-op" then "ok" else "bad unknown case kind"
+  | _ => "bad-op"
+
+end AxVerif.BTreeDriver
+
 namespace AxVerif.Drivers
 
-def btree (_flags : List String) (_line : String) : String := "unimplemented"
+def btree (_flags : List String) (line : String) : String :=
+  AxVerif.BTreeDriver.judge line.trimAscii.toString
 
 end AxVerif.Drivers
